@@ -463,8 +463,19 @@ class C12Monitor(Monitor):
 
     def on_datagram_in(self, sim, x, data, addr, now):
         ep = sim.ep[x]
+        routable = True
+        if x == "c" and ep.conn is not None:
+            # a datagram addressed to a connection ID the client has retired in the meantime is dropped whole (it may be a late
+            # retransmission built before the server switched IDs): nothing in it is "received"
+            try:
+                first = R.split_datagram(data, 8, require_fixed_bit=False)[0]
+                routable = bytes(first.dcid) in [bytes(c.cid) for c in ep.conn._host_cids]
+            except Exception:  # noqa
+                routable = True
         for sp, pn, ae in self.sent_map.get(data, []):
             self.delivered[x][sp].add(pn)
+            if not routable:
+                continue
             if pn > self.highest[x][sp]:
                 if pn > self.highest[x][sp] + 1:
                     self.gaps += 1
